@@ -427,12 +427,36 @@ func lenLowerBound(c *Ctx, blk *ssa.BasicBlock, v ssa.Value, depth int) int64 {
 
 // trueImpliesLen: the largest k such that f(p) == true implies len(p) >= k
 // (every return of a possibly-true value is reached with that fact).
+var trueImpliesBusy = map[*ssa.Function]bool{}
+
 func trueImpliesLen(c *Ctx, f *ssa.Function, p *ssa.Parameter) int64 {
+	if trueImpliesBusy[f] {
+		return 0
+	}
+	trueImpliesBusy[f] = true
+	defer delete(trueImpliesBusy, f)
 	res := int64(-1)
 	note := func(k int64) {
 		if res < 0 || k < res {
 			res = k
 		}
+	}
+	// the value handed back is itself the answer of another predicate of the module about p
+	nested := func(v ssa.Value) int64 {
+		call, ok := v.(*ssa.Call)
+		if !ok {
+			return 0
+		}
+		sf := call.Call.StaticCallee()
+		if sf == nil || !inModule(sf) || sf.Blocks == nil {
+			return 0
+		}
+		for i, a := range call.Call.Args {
+			if a == ssa.Value(p) && i < len(sf.Params) {
+				return trueImpliesLen(c, sf, sf.Params[i])
+			}
+		}
+		return 0
 	}
 	for _, r := range returnsOf(f) {
 		if len(r.Results) != 1 {
@@ -456,6 +480,9 @@ func trueImpliesLen(c *Ctx, f *ssa.Function, p *ssa.Parameter) int64 {
 				for excluded(facts, lb) && lb < 8 {
 					lb++
 				}
+				if k := nested(e); k > lb {
+					lb = k
+				}
 				note(lb)
 			}
 			continue
@@ -464,6 +491,9 @@ func trueImpliesLen(c *Ctx, f *ssa.Function, p *ssa.Parameter) int64 {
 		lb := lowerBound(facts, 0)
 		for excluded(facts, lb) && lb < 8 {
 			lb++
+		}
+		if k := nested(v); k > lb {
+			lb = k
 		}
 		note(lb)
 	}
@@ -1230,15 +1260,39 @@ func ruleOverlapClosed(c *Ctx, rule string) {
 		key := funcName(fn) + "/abutting-intervals-match"
 		strict := ""
 		cmps := 0
+		undecided := false
 		for _, b := range fn.Blocks {
 			for _, ins := range b.Instrs {
 				bo, ok := ins.(*ssa.BinOp)
 				if !ok {
 					continue
 				}
-				switch bo.Op {
+				op := bo.Op
+				switch op {
+				case token.GTR, token.LSS, token.GEQ, token.LEQ:
+				default:
+					continue
+				}
+				// the comparison as it must hold for Overlap to answer true: a test that leads to `return false`
+				// when it holds counts negated
+				for _, r := range *bo.Referrers() {
+					ifi, ok := r.(*ssa.If)
+					if !ok {
+						continue
+					}
+					t := mayReturnTrue(ifi.Block(), ifi.Block().Succs[0], map[*ssa.BasicBlock]bool{})
+					f := mayReturnTrue(ifi.Block(), ifi.Block().Succs[1], map[*ssa.BasicBlock]bool{})
+					switch {
+					case t && !f:
+					case f && !t:
+						op = negateOp(op)
+					default:
+						undecided = true
+					}
+				}
+				switch op {
 				case token.GTR, token.LSS:
-					strict = bo.Op.String()
+					strict = op.String()
 					cmps++
 				case token.GEQ, token.LEQ:
 					cmps++
@@ -1246,6 +1300,8 @@ func ruleOverlapClosed(c *Ctx, rule string) {
 			}
 		}
 		switch {
+		case undecided:
+			c.und(rule, key, fn.Pos(), "a comparison in Overlap does not decide the answer on its own")
 		case cmps < 2:
 			c.und(rule, key, fn.Pos(), "fewer than two comparisons in Overlap")
 		case strict != "":
@@ -1258,6 +1314,41 @@ func ruleOverlapClosed(c *Ctx, rule string) {
 	if n == 0 {
 		c.und(rule, "pals/Overlap", token.NoPos, "no Overlap method found")
 	}
+}
+
+// mayReturnTrue: entering blk from prev, can a return be reached whose boolean result is not the constant false?
+func mayReturnTrue(prev, blk *ssa.BasicBlock, seen map[*ssa.BasicBlock]bool) bool {
+	if seen[blk] {
+		return false
+	}
+	seen[blk] = true
+	defer delete(seen, blk)
+	switch last := blk.Instrs[len(blk.Instrs)-1].(type) {
+	case *ssa.Return:
+		if len(last.Results) != 1 {
+			return true
+		}
+		r := last.Results[0]
+		if phi, ok := r.(*ssa.Phi); ok && phi.Block() == blk {
+			for i, p := range blk.Preds {
+				if p == prev {
+					r = phi.Edges[i]
+				}
+			}
+		}
+		if k, ok := r.(*ssa.Const); ok && k.Value != nil {
+			return k.Value.String() != "false"
+		}
+		return true
+	case *ssa.Panic:
+		return false
+	}
+	for _, s := range blk.Succs {
+		if mayReturnTrue(blk, s, seen) {
+			return true
+		}
+	}
+	return false
 }
 
 // ---- asciicheck / norunes (C17) ----
@@ -1742,7 +1833,7 @@ func ruleLocPairwise(c *Ctx, rule string) {
 		}
 		if isResultElem(bo.X) && isResultElem(bo.Y) {
 			for _, succ := range b.Succs {
-				if rejects(succ) {
+				if rejectsFrom(b, succ) {
 					n++
 				}
 			}
